@@ -851,12 +851,45 @@ namespace
             auto shared = make_grid(A.env.g);
             const std::size_t nthreads = static_cast<std::size_t>(rng.range(2, 4));
             const bool blocks = rng.chance(0.5);  // contiguous blocks (as the router) or interleaved nodes
+            // read-only use of the fresh grid from every thread first: (status-filtered) node iteration in both directions and
+            // the construction of a flow graph on it (which takes its default base levels from the fixed-value nodes). These
+            // are const operations on the grid; their very first use may come from several threads at once.
+            auto iterate = [](const grid_t& g)
+            {
+                std::vector<std::uint64_t> q;
+                for (auto i : g.nodes_indices())
+                    q.push_back(i);
+                for (int s = 0; s < 4; ++s)
+                {
+                    q.push_back(~std::uint64_t(0));
+                    auto ni = g.nodes_indices(static_cast<NS>(s));
+                    for (auto it = ni.begin(); it != ni.end(); ++it)
+                        q.push_back(*it);
+                    q.push_back(~std::uint64_t(0) - 1);
+                    for (auto it = ni.rbegin(); it != ni.rend(); ++it)
+                        q.push_back(*it);
+                }
+                return q;
+            };
+            auto default_base_levels = [](grid_t& g)
+            {
+                GraphBundle gb = build_graph(g, { op_single() });
+                auto bl = gb.graph->base_levels();
+                std::sort(bl.begin(), bl.end());
+                return std::vector<std::uint64_t>(bl.begin(), bl.end());
+            };
+            const std::vector<std::uint64_t> want_iter = iterate(*ref_grid), want_bl = default_base_levels(*ref_grid);
+            std::vector<std::vector<std::uint64_t>> got_iter(nthreads), got_bl(nthreads);
+            const bool also_graphs = rng.chance(0.5);
             std::atomic<std::size_t> ready{ 0 };
             auto body = [&](std::size_t t)
             {
                 ready.fetch_add(1);
                 while (ready.load() < nthreads)
                     std::this_thread::yield();
+                got_iter[t] = iterate(*shared);
+                if (also_graphs)
+                    got_bl[t] = default_base_levels(*shared);
                 for (std::size_t i = 0; i < n; ++i)
                 {
                     const std::size_t owner = blocks ? std::min(nthreads - 1, i * nthreads / n) : i % nthreads;
@@ -871,6 +904,16 @@ namespace
             for (auto& t : th)
                 t.join();
             R.count("indep.shared_grid_disjoint_nodes_rounds");
+            for (std::size_t t = 0; t < nthreads; ++t)
+                if (got_iter[t] != want_iter || (also_graphs && got_bl[t] != want_bl))
+                {
+                    R.violation(P == std::string("C07") ? "C17" : P, "concurrent_first_iteration_of_a_shared_grid_differs",
+                                JObj().raw("grid", A.env.g.json(100)).i("thread", static_cast<long>(t)).i("threads", static_cast<long>(nthreads))
+                                    .s("detail", got_iter[t] != want_iter ? "node iteration (all / by status, both directions) on a fresh grid shared read-only by several threads differs from the single-threaded lists"
+                                                                          : "default base levels of a flow graph constructed on a fresh grid while other threads read the same grid differ from the fixed-value nodes").str());
+                    break;
+                }
+            R.count("indep.shared_grid_concurrent_iterations", static_cast<long>(nthreads));
             for (std::size_t i = 0; i < n; ++i)
                 if (got[i] != want[i])
                 {
@@ -942,9 +985,45 @@ namespace
         for (int s = 0; s < nsteps; ++s)
         {
             int cls = static_cast<int>(rng.below(n_field_classes));
-            in.field_cls = field_class_name(cls);
-            in.z = gen_field_spec(rng, env.g, env.R, cls);
-            if (s == 0 || rng.chance(0.3))
+            // later steps sometimes keep the surface (exactly, or up to a few nodes) while the mask / base levels change: an
+            // update that depends on less than its full current inputs (change detection, incremental shortcuts) shows here
+            const bool keep_surface = s > 0 && rng.chance(0.35);
+            if (keep_surface)
+            {
+                in.field_cls = "previous_surface";
+                if (rng.chance(0.4))
+                    for (long k = rng.range(1, 3); k > 0; --k)
+                        in.z[rng.below(n)] += rng.uniform(-1.0, 1.0);
+                R.count("c10.updates_keeping_the_previous_surface");
+            }
+            else
+            {
+                in.field_cls = field_class_name(cls);
+                in.z = gen_field_spec(rng, env.g, env.R, cls);
+            }
+            if (keep_surface && rng.chance(0.5))
+            {
+                // small edits of the inputs in force: a few more base levels and / or a few more masked nodes, nothing removed
+                if (rng.chance(0.7))
+                {
+                    for (long k = rng.range(1, 3); k > 0; --k)
+                        in.bl.push_back(rng.below(n));
+                    std::sort(in.bl.begin(), in.bl.end());
+                    in.bl.erase(std::unique(in.bl.begin(), in.bl.end()), in.bl.end());
+                    in.custom_bl = true;
+                    in.bl_cls = "previous_plus_a_few_nodes";
+                }
+                else
+                {
+                    if (in.mask.empty())
+                        in.mask.assign(n, 0);
+                    for (long k = rng.range(1, 3); k > 0; --k)
+                        in.mask[rng.below(n)] = 1;
+                    in.mask_cls = "previous_plus_a_few_nodes";
+                }
+                R.count("c10.updates_after_small_edits_of_mask_or_base_levels");
+            }
+            else if (s == 0 || rng.chance(keep_surface ? 0.8 : 0.3))
             {
                 auto mk = gen_mask(rng, env.g, env.R, in.mask_cls);
                 // a mask, once set on a graph, stays set: "no mask" afterwards means an all-false mask
